@@ -83,8 +83,34 @@ def runOp (s : St) (op : Op) (res : AuthRes) (impl : String) : St × DrvOut :=
     | none => if impl.startsWith "other" then "ok" else "FAIL unparsable implementation answer: " ++ impl
   (s', { model := outStr out, spec := spec })
 
+/-- `k:namehex:pub:skip:adm:granted:conf` -/
+def parseEv (t : String) : Option Ev :=
+  match t.splitOn ":" with
+  | [k, n, pub, skip, adm, gr, cf] => do
+    let k ← match k with
+      | "f" => some EvKind.find | "d" => some .describe | "p" => some .addPub | "r" => some .addReader | _ => none
+    let n ← Hex.decode n
+    pure { kind := k, name := n, publish := pub == "1", skip := skip == "1", admitted := adm == "1",
+           granted := gr == "1", conf := ← cf.toNat? }
+  | _ => none
+
+/-- implementation answer of a `proto` op: `<client result> <conn|conn|…>`, one `ev;ev;…` per server-side
+    connection object that issued a request during the op (with its complete history), or `-` -/
+def parseTrace (impl : String) : Option (List (List Ev)) :=
+  match words impl with
+  | [_, "-"] => some []
+  | [_, t] => (t.splitOn "|").mapM fun g => (g.splitOn ";").mapM parseEv
+  | _ => none
+
 def step' (s : St) (op impl : String) : St × DrvOut :=
   match words op with
+  | "proto" :: _proto :: _mode :: secret :: _ =>
+    -- one client connection against a real protocol server; the model does not predict the trace, the
+    -- property is evaluated on it
+    let spec := match parseTrace impl with
+      | some conns => (match conns.findSome? (checkTrace (secret == "1")) with | none => "ok" | some m => "FAIL " ++ m)
+      | none => "FAIL unparsable trace: " ++ impl
+    (s, { model := "-", spec := spec })
   | "reset" :: rest =>
     match parseConfs rest with
     | some cs => ({ confs := cs }, { model := "ok" })
